@@ -169,7 +169,7 @@ func c10ExprLines() []string {
 }
 
 func c10Components() []c10Comp {
-	lines := append(c10ExprLines(), "?", "?")
+	lines := append(c10ExprLines(), "?", "?", "?")
 	return []c10Comp{
 		{"leaf", func() templ.Component { return tmpl.Leaf("x & y") }, "-"},
 		{"big-40", func() templ.Component { return tmpl.Big(40) }, "-"},
@@ -189,6 +189,9 @@ func c10Components() []c10Comp {
 		{"flush-block-expr-fail", func() templ.Component { return tmpl.FailingInFlush("x", true) }, lines[2]},
 		{"flush-block-nested-fail", func() templ.Component { return tmpl.FailingNestedInFlush(true) }, "-"},
 		{"flush-block-ok", func() templ.Component { return tmpl.FailingInFlush("x", false) }, "-"},
+		{"style-fail", func() templ.Component { return tmpl.FailingStyle(true) }, lines[3]},
+		{"style-ok", func() templ.Component { return tmpl.FailingStyle(false) }, "-"},
+		{"join-generated", func() templ.Component { return templ.Join(tmpl.Leaf("a"), tmpl.Leaf("b")) }, "-"},
 	}
 }
 
@@ -200,6 +203,7 @@ func c10OKVariants() map[string]func() templ.Component {
 		"nested-fail":             func() templ.Component { return tmpl.FailingNested(false) },
 		"flush-block-expr-fail":   func() templ.Component { return tmpl.FailingInFlush("x", false) },
 		"flush-block-nested-fail": func() templ.Component { return tmpl.FailingNestedInFlush(false) },
+		"style-fail":              func() templ.Component { return tmpl.FailingStyle(false) },
 	}
 }
 
@@ -271,8 +275,25 @@ func c10Renders(e *emitter, r *rng, tier string) {
 		errC := c.mk().Render(cctx, &cw)
 		kc, _ := c10ErrKind(errC)
 		{
-			e.emit("render "+c.name+" cancelled", "render", c.name+"-cancelled", "-", "false", hx(""), hx(cw.String()), map[bool]string{true: "nil", false: kc}[kc == "ctx" && cw.Len() == 0], "-", "-")
+			rep := kc
+			if kc == "ctx" && cw.Len() == 0 {
+				rep = "nil" // as it should be: the cancellation is reported and nothing was written
+			} else if kc == "nil" {
+				rep = "returned-nil-although-cancelled"
+			}
+			e.emit("render "+c.name+" cancelled", "render", c.name+"-cancelled", "-", "false", hx(""), hx(cw.String()), rep, "-", "-")
 		}
+	}
+	// a context cancelled between two joined components: the second reports it, Join passes it on
+	{
+		cctx, cancel := context.WithCancel(bg)
+		canceller := templ.ComponentFunc(func(ctx context.Context, w io.Writer) error { cancel(); return nil })
+		var jw strings.Builder
+		errJ := templ.Join(tmpl.Leaf("a"), canceller, tmpl.Leaf("b"), tmpl.Leaf("c")).Render(cctx, &jw)
+		var first strings.Builder
+		_ = tmpl.Leaf("a").Render(bg, &first)
+		kj, _ := c10ErrKind(errJ)
+		e.emit("render join-cancelled-midway", "render", "join-midway-cancelled", "-", "false", hx(first.String()), hx(jw.String()), map[bool]string{true: "nil", false: map[bool]string{true: "returned-nil-although-cancelled", false: kj}[kj == "nil"]}[kj == "ctx" && jw.String() == first.String()], "-", "-")
 	}
 	// children rendered into a plain (non-Buffer) writer by a hand-written component must arrive completely
 	capture := templ.ComponentFunc(func(ctx context.Context, w io.Writer) error {
